@@ -4,7 +4,7 @@ from .. import core, gen
 from . import vcdfam
 
 PID = "C14"
-LEVEL = "translation_validation"
+LEVEL = "proof"
 MODES = ["st", "rd", "rb", "hc", "hp", "hf:0", "hf:1", "mt:4:0", "rbc:16", "rbc:7", "hbc:16:0", "hbc:5:1"]
 MALFORMED = {"sigmoid_tb.vcd"}
 KNOWN_MT = {"CGRA.vcd"}        # known_findings.jsonl, C14 / D8-implicit-zero-then-0-corpus
